@@ -221,6 +221,7 @@ def run(ctx: Ctx):
     run_positional_keys(ctx)
     run_loop_batches(ctx)
     run_field_coords(ctx)
+    run_latent_key_order(ctx)
 
 
 def run_nan_batches(ctx: Ctx):
@@ -329,6 +330,37 @@ def run_field_coords(ctx: Ctx):
                 ctx.violate('C10:field-axes-taken-as-loop-axes', f'{fname} returned shape {y.shape} for loop shape {loop} and field shape {fshape}', case)
             elif not np.allclose(y, want, rtol=1e-13, atol=0):
                 ctx.violate('C10:batch-vs-single', f'{fname}: values differ from the per-field results', case)
+
+
+def run_latent_key_order(ctx: Ctx):
+    """the latent coefficients of a compressed field input may be listed in any key order: model call (the field is reconstructed from them)
+    and surrogate prediction give the same values"""
+    import random as _random
+    rng = ctx.rng
+    for n in range(ctx.pick(4, 20)):
+        system, _ = systems.field_input_system(_random.Random(ctx.seed * 67 + n), name=f'lk{n}')
+        comp = system.components[0]
+        for b in [(0, 0), (1, 0), (0, 1)]:
+            comp.activate_index((), b)
+        N = rng.randint(1, 4)
+        np.random.seed(ctx.seed * 5 + n)
+        x = system.sample_inputs(N)
+        keys = list(x.keys())
+        perm = keys[:]
+        while perm == keys:
+            rng.shuffle(perm)
+        case = {'latent_key_order': n, 'keys': [str(k) for k in keys], 'permuted': [str(k) for k in perm]}
+        ctx.case(case, nontrivial=True, kind='latent-key-order')
+        for label, kw in (('surrogate', {}), ('model', {'use_model': 'best'})):
+            try:
+                y1 = system.predict({k: x[k] for k in keys}, **kw)
+                y2 = system.predict({k: x[k] for k in perm}, **kw)
+            except Exception as e:
+                ctx.violate('C10:predict-raises', f'{label}: {type(e).__name__}: {e}', case); continue
+            for var in y1:
+                if not systems.floats_close(y1[var], y2[var], rtol=1e-12, atol=1e-14):
+                    ctx.violate('C10:key-order', f'{label}: output {var} = {np.asarray(y1[var]).tolist()} with keys {case["keys"]}, '
+                                f'{np.asarray(y2[var]).tolist()} with keys {case["permuted"]}', case); break
 
 
 def run_positional_keys(ctx: Ctx):
